@@ -14,11 +14,12 @@ Local Open Scope N_scope.
 Local Open Scope string_scope.
 
 (* the component order and every constant copied from generate_hash_key / parse_dep_info / parse_env_dep_info by the
-   translator are the ones the theorems below are about (the FIXED code: NUL-terminated arguments, unset marker) *)
+   translator are the ones the theorems below are about (the code as it is: env-deps with an unset marker after the
+   S13 fix; arguments concatenated WITHOUT a terminator, finding C05-S22) *)
 Theorem C05_spec_ok :
   hash_spec = [HCacheVersion; HShlibDigests; HArguments; HFileDigests [DSource; DExtern; DStaticlib; DTargetJson];
                HEnvDeps; HCargoEnv; HCwd; HRustcVersion] /\
-  arg_terminator = [0] /\
+  arg_terminator = [] /\
   env_dep_set_marker = [61] /\ env_dep_unset_marker = Some [0] /\ env_dep_unset_is_none = true /\
   cargo_separator = [61] /\
   arg_excluded = [bs "--extern"; bs "-L"; bs "--out-dir"] /\
@@ -72,7 +73,7 @@ Proof. exact envdep_old_refuted. Qed.
 Print Assumptions C05_envdep_old_refuted.
 
 (* equal key pre-images imply equal components: the sysroot library digests, the argument STRING (the concatenation
-   of the hashed arguments, see C05_args_injective for the arguments themselves), all file digests (sources, externs,
+   of the hashed arguments — NOT the arguments themselves, see C05_arg_concat_refuted), all file digests (sources, externs,
    static libraries, target json: one list, the code writes no counts), all environment entries (env-deps followed by
    the hashed CARGO_* variables: one list, same reason) and the (cwd, rustc -vV) tail *)
 Theorem C05_key_injective_modulo_arg_concat : forall r1 r2,
@@ -85,21 +86,29 @@ Theorem C05_key_injective_modulo_arg_concat : forall r1 r2,
 Proof. exact key_injective. Qed.
 Print Assumptions C05_key_injective_modulo_arg_concat.
 
-(* with the NUL terminators of the fixed code the argument string determines every hashed argument *)
-Theorem C05_args_injective : forall tj1 a1 tj2 a2,
-  pieces_nul_free (arg_pieces tj1 a1) = true -> pieces_nul_free (arg_pieces tj2 a2) = true ->
-  arg_string tj1 a1 = arg_string tj2 a2 -> arg_pieces tj1 a1 = arg_pieces tj2 a2.
-Proof. exact args_injective. Qed.
-Print Assumptions C05_args_injective.
-
-(* the code before the fix (plain concatenation): `-C metadata=a -C metadata=b` vs `-C metadata=a-Cmetadata=b` *)
-Theorem C05_arg_concat_old_refuted :
+(* C05-S22 (recorded, open): the argument string is a plain concatenation, so the per-argument statement is FALSE:
+   `-C metadata=a -C metadata=b` and `-C metadata=a-Cmetadata=b` (both accepted by rustc, different rlibs) have
+   different hashed pieces and the same argument string, hence — everything else equal — the same key *)
+Theorem C05_arg_concat_refuted :
   exists a1 a2 : list pair,
     arg_pieces false a1 <> arg_pieces false a2 /\
     pieces_nul_free (arg_pieces false a1) = true /\ pieces_nul_free (arg_pieces false a2) = true /\
-    terminated [] (arg_pieces false a1) = terminated [] (arg_pieces false a2).
-Proof. exact arg_concat_old_refuted. Qed.
-Print Assumptions C05_arg_concat_old_refuted.
+    arg_string false a1 = arg_string false a2.
+Proof. exact arg_concat_refuted. Qed.
+Print Assumptions C05_arg_concat_refuted.
+
+(* what IS true of the arguments: the string is exactly the concatenation of the hashed pieces ... *)
+Theorem C05_arg_string_is_concat : forall tj a, arg_string tj a = concat (arg_pieces tj a).
+Proof. exact arg_string_concat. Qed.
+Print Assumptions C05_arg_string_is_concat.
+
+(* ... so it determines them whenever no boundary moves (same piece lengths one by one); the full statement
+   "equal keys => equal hashed arguments" would need a delimiter in generate_hash_key *)
+Theorem C05_args_injective_guarded : forall tj1 a1 tj2 a2,
+  map (@length N) (arg_pieces tj1 a1) = map (@length N) (arg_pieces tj2 a2) ->
+  arg_string tj1 a1 = arg_string tj2 a2 -> arg_pieces tj1 a1 = arg_pieces tj2 a2.
+Proof. exact args_injective_guarded. Qed.
+Print Assumptions C05_args_injective_guarded.
 
 (* any permutation of the --cfg pairs, the other hashed arguments staying in place, gives the same argument string *)
 Theorem C05_order_insensitive : forall tj a1 a2,
@@ -163,11 +172,9 @@ Definition example_req : hreq :=
 Example example_req_wf : req_wf example_req = true.
 Proof. vm_compute. reflexivity. Qed.
 
-(* the --cfg pairs are sorted to the end, --extern is dropped, every piece is NUL-terminated *)
+(* the --cfg pairs are sorted to the end, --extern is dropped, nothing separates the pieces *)
 Example example_arg_string :
-  req_arg_string example_req
-  = bs "--crate-name" ++ [0] ++ bs "foo" ++ [0] ++ bs "src/lib.rs" ++ [0]
-    ++ bs "--cfg" ++ [0] ++ bs "a" ++ [0] ++ bs "--cfg" ++ [0] ++ bs "b" ++ [0].
+  req_arg_string example_req = bs "--crate-namefoosrc/lib.rs--cfga--cfgb".
 Proof. vm_compute. reflexivity. Qed.
 
 Example example_accepted :
